@@ -11,7 +11,7 @@ fn ilist(rng: &mut Rng, n: usize) -> String {
 
 /// One block of forms; `u` is a unique suffix for global names.
 pub fn block(rng: &mut Rng, u: usize, tags: &mut Vec<String>) -> Vec<String> {
-    let t = rng.below(21);
+    let t = rng.below(22);
     tags.push(format!("cont-t{}", t));
     let a = rng.range(1, 9);
     let b = rng.range(2, 5);
@@ -331,6 +331,23 @@ pub fn block(rng: &mut Rng, u: usize, tags: &mut Vec<String>) -> Vec<String> {
                 format!("(if (< cnt{u} 2) (begin (set! cnt{u} (+ cnt{u} 1)) (k{u} 'third)) 'done)", u = u),
                 format!("(list saved{u} r{u})", u = u),
             ]
+        }
+        20 => {
+            // the receiver of call/cc is itself a continuation: (call/cc k) sends the current continuation to k;
+            // the continuation received that way is a procedure like any other and is invoked later
+            let mut f = vec![
+                format!("(define k{u} #f)", u = u),
+                format!("(define n{u} 0)", u = u),
+                format!("(define seen{u} '())", u = u),
+                format!("(set! seen{u} (cons (call/cc (lambda (c) (set! k{u} c) 'first)) seen{u}))", u = u),
+            ];
+            for _ in 0..(1 + r.min(2)) {
+                f.push(format!("(if (< n{u} 3) (begin (set! n{u} (+ n{u} 1)) (list 'back (call/cc k{u}))) 'done)", u = u));
+            }
+            f.push(format!("(list n{u} (length seen{u}) (map procedure? seen{u}))", u = u));
+            f.push(format!("(if (procedure? (car seen{u})) ((car seen{u}) {a}) 'none)", u = u, a = a));
+            f.push(format!("(list n{u} (length seen{u}))", u = u));
+            f
         }
         _ => {
             // invoked from inside a for-each callback of a later form: abandons that loop
